@@ -225,7 +225,7 @@ class Scenario:
         self.bdir = bdir
         self.mode, self.lines = scenario_script(name)
 
-    def run(self, inject=None, keep=False):
+    def run(self, inject=None, keep=False, shim=None):
         """one run under strace; returns dict(calls, rc, stderr, state, emu, dir)"""
         d = core.mkscratch("fs")
         try:
@@ -234,6 +234,8 @@ class Scenario:
             env = {"OVNI_TRACEDIR": os.path.join(d, "final")}
             if self.mode == "tmp":
                 env["OVNI_TMPDIR"] = os.path.join(d, "tmp")
+            if shim:
+                env.update({"LD_PRELOAD": shim, "VERIF_SHORTWRITE": "40"})
             cmd = ["strace", "-f", "-o", os.path.join(d, "strace.log"), "-e", "trace=" + TRACED]
             if inject:
                 cmd += ["-e", "inject=" + inject]
@@ -353,6 +355,20 @@ def main(pid, tier):
         ncalls = len(ref["calls"])
         execs.append(records_for(sc, ref, ref, "replay", "returned"))
         owners.append((name, "reference", None))
+        if pid == "C10":
+            # truthful short writes (every write of more than 40 bytes on a regular file transfers ~40%):
+            # the run must still return with a complete, accepted trace
+            res = sc.run(shim=core.cc_shim(bdir))
+            mark_stream_writes(res)
+            ck.case("%s:short-writes" % name, nontrivial=True)
+            outcome = "returned" if res["rc"] == 0 else ("aborted" if res["rc"] == 3 else None)
+            if outcome is None:
+                ck.violation("scenario %s under short writes: driver ended with status %s\n%s"
+                             % (name, res["rc"], res["stderr"][-600:]), {"stderr.txt": res["stderr"]},
+                             sig="shortwrite-exit-%s" % res["rc"])
+            else:
+                execs.append(records_for(sc, ref, res, "fault", outcome))
+                owners.append((name, "short writes", res))
         if pid == "C09":
             points = list(range(start, ncalls))
 
